@@ -360,11 +360,16 @@ fn spawn_async_ao_list_in_task'''),
     fn from(piece: ExpansionPiece) -> Self {
         match piece {
             ExpansionPiece::Unsplittable(s) => Self::Pattern(s),'''),
+        ('line-anchored-again', 'brush-core/src/regex.rs', 'std::format!("(?s){regex_str}")', 'std::format!("(?ms){regex_str}")'),
+        ('dot-stops-at-newline', 'brush-core/src/regex.rs', 'std::format!("(?s){regex_str}")', 'std::format!("(?i){regex_str}")'),
+        ('exact-match-unanchored-at-end', 'brush-core/src/patterns.rs', 'let re = self.to_regex(true, true)?;\n        Ok(re.is_match(value)?)', 'let re = self.to_regex(true, false)?;\n        Ok(re.is_match(value)?)'),
+        ('regex-ignores-case-flag', 'brush-core/src/patterns.rs', 'regex::compile_regex(regex_str, self.case_insensitive, self.multiline)?', 'regex::compile_regex(regex_str, false, self.multiline)?'),
         ('suffix-anchor-dropped', 'brush-core/src/patterns.rs', '''        if strict_suffix_match {
             regex_str.push('$');
         }
 ''', ''),
     ],
+    'U10b': [],
     'U11': [
         ('empty-fields-kept-on-ifs-run', 'brush-core/src/expansion.rs', '''                            if ifs.contains(c) {
                                 if !current_field.0.is_empty() {
